@@ -2,6 +2,12 @@
 From Coq Require Import ZArith List Bool Uint63.
 From VLib Require Import CaseLib.
 From C14 Require Import Model.
+(* gen-* cases (validation of the translator go2coq) *)
+From VLib Require GoSem.
+From C14 Require GenCase.
+Notation GVal := GoSem.GVal.
+Notation GPanic := GoSem.GPanic.
+Notation GFuel := GoSem.GFuel.
 Import ListNotations.
 Open Scope Z_scope.
 
@@ -276,7 +282,10 @@ Inductive case :=
 | WFrac (creation : int) (ids : idl) (sealed restored : bool) (itotal ifrom ito : int) (st : wstate)
         (mins : idl) (tbl_ok : bool) (qs : fql)
 | WStore (all : idl) (qs : sql) (fetched : ful)
-| WChunk (all : idl) (qs : cql).
+| WChunk (all : idl) (qs : cql)
+(* gen-<func>: the REAL Go function number fn (GenCase.gen_eval) was called on args and returned impl (or
+   panicked); the model side is the definition GENERATED from the Go source by go2coq (Gen.v) *)
+| CGen (fn : N) (args : list (list Z)) (impl : GoSem.gres).
 
 Definition decode (c : case) : dcase :=
   match c with
@@ -291,10 +300,19 @@ Definition decode (c : case) : dcase :=
             (of_idl mins) tbl_ok (of_fql qs)
   | WStore all qs fetched => CStore (of_idl all) (of_sql qs) (of_ful fetched)
   | WChunk all qs => CChunk (of_idl all) (of_cql qs)
+  | CGen _ _ _ => CBits 0 [] [] []
   end.
 
-Definition case_agrees (c : case) : bool := dcase_agrees (decode c).
-Definition case_spec_ok (c : case) : bool := dcase_spec_ok (decode c).
+Definition case_agrees (c : case) : bool :=
+  match c with
+  | CGen fn args impl => GoSem.gres_eqb (GenCase.gen_eval fn args) impl
+  | _ => dcase_agrees (decode c)
+  end.
+Definition case_spec_ok (c : case) : bool :=
+  match c with
+  | CGen _ _ _ => true   (* translator validation: correspondence only *)
+  | _ => dcase_spec_ok (decode c)
+  end.
 
 Definition diff_indices (l : list case) : list nat := bad_indices (fun c => negb (case_agrees c)) l.
 Definition specfail_indices (l : list case) : list nat := bad_indices (fun c => negb (case_spec_ok c)) l.
